@@ -13,6 +13,7 @@ import BezierVerif.Model.Clip
 import BezierVerif.Model.Lookup
 import BezierVerif.Model.Inter
 import BezierVerif.Model.Winding
+import BezierVerif.Model.CC
 import BezierVerif.Gen.Box
 
 namespace ModelDriver
@@ -62,6 +63,13 @@ def mindistNode (n m W : Nat) (eps : ℚ) (best : Option ℚ) (umin umax vmin vm
   | none => "none"
   | some (.ret t, b) => "ret " ++ showRats [t.1, t.2.1, t.2.2] ++ " " ++ showOptRat b
   | some (.split nu nv, b) => "split " ++ showRats [nu, nv] ++ " " ++ showOptRat b
+
+/-- the bucket of `"%.2f" % t` for an exactly representable t ≥ 0: 100·t rounded half-to-even -/
+def key2 (t : ℚ) : Int :=
+  let x := 100 * t
+  let f := Int.fdiv x.num x.den
+  let r := x - f
+  if r < 1 / 2 then f else if r > 1 / 2 then f + 1 else if f % 2 = 0 then f else f + 1
 
 /-- split a token list at every occurrence of `sep` -/
 def splitTok (sep : String) (l : List String) : List (List String) :=
@@ -398,6 +406,17 @@ def handle (name : String) (args : List String) : String :=
         | _, _, _, _ => "bad-args"
       | _ => "bad-args"
     | [] => "bad-args"
+  | "cc.run" =>
+    -- cc.run <fuel> <curve a> <curve b>: `_curve_curve_intersections_t` on the whole curves
+    match args with
+    | fu :: rest =>
+      match fu.toNat?, parseSegs rest with
+      | some fuel, some ([a, b], []) =>
+        match CC.cc (CC.segEnv ratSqrt key2) fuel a (0, 1) b (0, 1) with
+        | some out => "ok " ++ showRats (out.flatMap fun p => [p.1, p.2])
+        | none => "fuel"
+      | _, _ => "bad-args"
+    | _ => "bad-args"
   | _ => "nomodel"
 
 end ModelDriver
